@@ -35,6 +35,7 @@ import (
 type finding struct{ Key, What string }
 
 type judge struct {
+	loadDangling    string // kin-openapi could not load the document because a $ref does not resolve: its message
 	validatorGaveUp bool
 	fmtName         string // oas3 | swagger
 	out             []finding
@@ -137,6 +138,28 @@ func (j *judge) checkType(t aType, sv interface{}, refPrefix, role, where string
 			j.fail("extra-content:properties-on-primitive", "%s: the schema of primitive %s has properties: %s", where, t.Prim, compact(s["properties"]))
 		}
 	case "ref":
+		got := asStr(s["$ref"])
+		if t.FK != "" && got == refPrefix+t.Ref+"/properties/"+t.FK {
+			return // a foreign key may name the table or the field of the table
+		}
+		if i := strings.LastIndex(t.Ref, "."); i >= 0 {
+			// a nested (in-place) type "Outer.field" or a type of another application "App.Type".  The known shapes:
+			// OpenAPI 3 refers to the last component (judged by the dangling-reference rule, own key), Swagger writes
+			// {type: object, format: <field>} resp. {type: object, format: <App>}
+			last, first, cls := t.Ref[i+1:], t.Ref[:i], "cross-application"
+			if t.Nested {
+				cls = "nested-type"
+			}
+			switch {
+			case got == refPrefix+t.Ref:
+			case j.fmtName == "oas3" && got == refPrefix+last && len(s) == 1:
+			case j.fmtName == "swagger" && asStr(s["type"]) == "object" && (t.Nested && asStr(s["format"]) == last || !t.Nested && asStr(s["format"]) == first):
+				j.fail("ref-as-format:"+cls, "%s: reference to %s is written as %s", where, t.Ref, compact(s))
+			default:
+				j.fail(role+"-ref-target:"+cls, "%s: must refer to %s, schema is %v", where, t.Ref, compact(s))
+			}
+			return
+		}
 		if asStr(s["$ref"]) != refPrefix+t.Ref {
 			if j.fmtName == "swagger" && asStr(s["format"]) == t.Ref && asStr(s["type"]) == "object" {
 				j.fail("ref-as-format", "%s: reference to %s is written as {type: object, format: %s}, not as $ref", where, t.Ref, t.Ref)
@@ -231,8 +254,41 @@ func errClass(err error) string {
 
 // rules of the specification checked directly on the decoded document (also when the validator gives up):
 // every $ref names an existing component schema; every {name} of a path template is a declared, required path parameter
-func ownRules3(j *judge, doc map[string]interface{}) {
+func ownRules3(j *judge, doc map[string]interface{}, a aApp) {
 	schemas := asMap(asMap(doc["components"])["schemas"])
+	// the two known ways a reference dangles: the last component of a nested type's name, of a type of another application
+	nestedLast, crossLast := map[string]bool{}, map[string]bool{}
+	var note func(t aType)
+	note = func(t aType) {
+		if t.Elem != nil {
+			note(*t.Elem)
+		}
+		if i := strings.LastIndex(t.Ref, "."); t.Kind == "ref" && i >= 0 {
+			crossLast[t.Ref[i+1:]] = true
+		}
+	}
+	for _, td := range a.Types {
+		for _, f := range td.Fields {
+			if f.T.Kind == "inline" {
+				nestedLast[f.Name] = true
+			}
+			note(f.T)
+		}
+		if td.Alias != nil {
+			note(*td.Alias)
+		}
+	}
+	for _, ep := range a.Endpoints {
+		for _, p := range ep.Params {
+			note(p.T)
+		}
+		for _, r := range ep.Rets {
+			if r.T != nil {
+				note(*r.T)
+			}
+		}
+	}
+	dangling := 0
 	var walk func(v interface{}, where string)
 	walk = func(v interface{}, where string) {
 		switch x := v.(type) {
@@ -240,7 +296,15 @@ func ownRules3(j *judge, doc map[string]interface{}) {
 			if r, ok := x["$ref"].(string); ok {
 				n := strings.TrimPrefix(r, "#/components/schemas/")
 				if n == r || schemas[n] == nil {
-					j.fail("not-well-formed:dangling-ref", "%s: $ref %s names no component schema", where, r)
+					dangling++
+					switch {
+					case n != r && nestedLast[n]:
+						j.fail("not-well-formed:dangling-ref:nested-type", "%s: $ref %s names no component schema (the nested type is exported under its full name <Outer>.%s)", where, r, n)
+					case n != r && crossLast[n]:
+						j.fail("not-well-formed:dangling-ref:cross-application", "%s: $ref %s names no component schema (%s is a type of another application; the document holds one application)", where, r, n)
+					default:
+						j.fail("not-well-formed:dangling-ref", "%s: $ref %s names no component schema", where, r)
+					}
 				}
 			}
 			for k, c := range x {
@@ -253,6 +317,9 @@ func ownRules3(j *judge, doc map[string]interface{}) {
 		}
 	}
 	walk(doc, "")
+	if j.loadDangling != "" && dangling == 0 {
+		j.fail("not-well-formed:load:unresolved-reference", "kin-openapi cannot load the document: %s", j.loadDangling)
+	}
 	for path, pi := range asMap(doc["paths"]) {
 		for meth, opv := range asMap(pi) {
 			declared := map[string]bool{}
@@ -287,6 +354,11 @@ func wellFormed3(j *judge, jsonB []byte) {
 		// the validator gives up on some reference cycles and says so itself: no verdict from it for this document
 		// (every $ref is still checked against the type it has to name by the completeness clauses)
 		j.validatorGaveUp = true
+		return
+	}
+	if err != nil && strings.Contains(err.Error(), "failed to resolve") && strings.Contains(err.Error(), "#/components/schemas/") {
+		// a $ref that names no component schema: reported, with the reference, by ownRules3
+		j.loadDangling = firstLine(err.Error())
 		return
 	}
 	if err != nil {
@@ -391,7 +463,24 @@ func wellFormed2(j *judge, jsonB []byte, doc map[string]interface{}) {
 
 // ---------------------------------------------------------------- completeness
 
+// expandNested: a nested (in-place) type is the type "<Outer>.<field>" plus a reference to it
+func expandNested(a aApp) aApp {
+	a = cloneApp(a)
+	n := len(a.Types)
+	for i := 0; i < n; i++ {
+		for fi, f := range a.Types[i].Fields {
+			if f.T.Kind == "inline" {
+				full := a.Types[i].Name + "." + f.Name
+				a.Types = append(a.Types, aTypeDef{Name: full, Kind: "tuple", Fields: f.T.Fields})
+				a.Types[i].Fields[fi].T = aType{Kind: "ref", Ref: full, Nested: true, Opt: f.T.Opt}
+			}
+		}
+	}
+	return a
+}
+
 func (j *judge) checkTypes(a aApp, schemas map[string]interface{}, refPrefix string) {
+	a = expandNested(a)
 	for _, td := range a.Types {
 		sv, ok := schemas[td.Name]
 		if !ok {
@@ -400,9 +489,28 @@ func (j *judge) checkTypes(a aApp, schemas map[string]interface{}, refPrefix str
 		}
 		s := asMap(sv)
 		switch td.Kind {
-		case "tuple":
+		case "union":
+			// oneOf / anyOf with a reference to every alternative; the known shape is the empty schema
+			alts := asList(s["oneOf"])
+			if alts == nil {
+				alts = asList(s["anyOf"])
+			}
+			if len(s) == 0 {
+				j.fail("type-kind:union-as-empty-schema", "union %s of %v is exported as the empty schema {}", td.Name, td.Alts)
+				continue
+			}
+			for _, alt := range td.Alts {
+				found := false
+				for _, av := range alts {
+					found = found || asStr(asMap(av)["$ref"]) == refPrefix+alt
+				}
+				if !found {
+					j.fail("type-kind:union", "union %s: alternative %s is not among oneOf / anyOf of %s", td.Name, alt, compact(s))
+				}
+			}
+		case "tuple", "table", "map":
 			if asStr(s["type"]) != "object" {
-				j.fail("type-kind:tuple", "type %s must be an object schema, is %s", td.Name, compact(s))
+				j.fail("type-kind:"+td.Kind, "type %s (%s) must be an object schema, is %s", td.Name, td.Kind, compact(s))
 				continue
 			}
 			props := asMap(s["properties"])
@@ -430,11 +538,17 @@ func (j *judge) checkTypes(a aApp, schemas map[string]interface{}, refPrefix str
 			}
 			_, hasReq := s["required"]
 			for _, f := range td.Fields {
+				if td.Kind == "map" {
+					break // a json_map_key type describes the entries of a map: nothing is demanded of `required`
+				}
 				switch {
 				case !f.T.Opt && !req[f.Name] && !hasReq:
 					j.fail("required:not-exported", "schema %s has no required list, but %s.%s <: %s is not optional", td.Name, td.Name, f.Name, typeText(f.T))
 				case !f.T.Opt && !req[f.Name]:
 					j.fail("required:missing:"+tyDesc(f.T), "%s.%s <: %s is not optional but not listed in required %v", td.Name, f.Name, typeText(f.T), s["required"])
+				case f.T.Opt && req[f.Name] && td.Kind == "table" && f.T.Kind == "ref":
+					// known: MapType does not copy the `?` of a reference attribute of a table
+					j.fail("required:extra:table-ref", "%s.%s <: %s (a reference attribute of a !table) is optional but listed in required", td.Name, f.Name, typeText(f.T))
 				case f.T.Opt && req[f.Name]:
 					j.fail("required:extra:"+tyDesc(f.T), "%s.%s <: %s is optional but listed in required", td.Name, f.Name, typeText(f.T))
 				}
@@ -761,7 +875,10 @@ func (j *judge) checkRoundTrip(a aApp, app *sysl.Application) {
 			continue
 		}
 		switch td.Kind {
-		case "tuple":
+		case "union", "map":
+			// not judged: a union is exported without its alternatives (reported by the completeness clause), a
+			// json_map_key type as an object schema, which no importer turns back into a map
+		case "tuple", "table":
 			tu := t.GetTuple()
 			if tu == nil {
 				if len(td.Fields) == 0 {
@@ -777,10 +894,17 @@ func (j *judge) checkRoundTrip(a aApp, app *sysl.Application) {
 					j.fail("roundtrip:missing-field:"+tyDesc(f.T), "after re-import %s.%s is gone", td.Name, f.Name)
 					continue
 				}
+				if f.T.Kind == "inline" || f.T.Kind == "ref" && strings.Contains(f.T.Ref, ".") ||
+					f.T.Elem != nil && f.T.Elem.Kind == "ref" && strings.Contains(f.T.Elem.Ref, ".") {
+					continue // dangling in the exported document (reported there): nothing can come back
+				}
 				want, got := rtOfAbstract(f.T), rtOfSysl(ft)
 				switch {
 				case f.T.Kind == "set" && got.Seq && got.Class == want.Class && got.Opt == want.Opt:
 					j.fail("roundtrip:set-becomes-sequence", "%s.%s <: %s comes back as %s", td.Name, f.Name, typeText(f.T), got)
+				case td.Kind == "table" && f.T.Kind == "ref" && f.T.Opt && !got.Opt && got.Class == want.Class && got.Seq == want.Seq:
+					// consequence of required:extra:table-ref: the document says the attribute is required
+					j.fail("roundtrip:table-ref-becomes-required", "%s.%s <: %s comes back as %s", td.Name, f.Name, typeText(f.T), got)
 				case want != got:
 					j.fail("roundtrip:field:"+tyDesc(f.T), "%s.%s <: %s comes back as %s", td.Name, f.Name, typeText(f.T), got)
 				}
